@@ -54,8 +54,11 @@ def check(rep, ex: Explorer, cls: str, strict=True, extended=True, keys=False):
             # KEY.no-reserved (C12.D1): the query must not be stored under a literal key that the base may use
             for k, v in ents:
                 lit = not k.startswith("('d'")
+                fresh = (not lit) and _fresh_key(k)
+                if not lit and not fresh:
+                    raise AnalysisError(f"{site}: cannot tell whether the key {k[:120]} of the negated query is outside the base's keys")
                 rep.check(not lit, "KEY.no-reserved", site, "negated-query key", "the negated query is stored under a key that cannot collide with a key of the base",
-                          extracted=f"literal key {k}" if lit else f"fresh key {k}", required="a key provably outside the base's keys", function=site)
+                          extracted=f"literal key {k}" if lit else "below the minimum / above the maximum of the base's keys", required="a key provably outside the base's keys", function=site)
         # ---- C01.mode-arg
         ok = isinstance(c.weakly, Const) and c.weakly.value is W
         rep.check(ok, "C01.mode-arg", site, f"{mode}: partition mode", f"the partition of the extended base is computed in {mode} mode",
@@ -109,3 +112,29 @@ def _show_cond(d):
 
         return f"(B:{show_canon(d[2])} | A:{show_canon(d[1])})"
     return repr(d)
+
+
+def _fresh_key(krepr: str) -> bool:
+    """A key expression of the form min(keys of the base) - c or max(keys of the base) + c with c >= 1 (recognised on
+    the descriptor the engine stored the entry under)."""
+    import ast as _ast
+
+    try:
+        d = _ast.literal_eval(krepr)
+    except Exception:
+        return False
+    if not (isinstance(d, tuple) and d[0] == "d"):
+        return False
+    x = d[1]
+    if not (isinstance(x, tuple) and x[0] == "lin"):
+        return False
+    terms, const = x[1]
+    if len(terms) != 1:
+        return False
+    (t, c), = terms
+    if c != 1 or not (isinstance(t, tuple) and t and t[0] in ("min", "max")):
+        return False
+    over_keys = "('keys', 'D')" in repr(t)
+    if not over_keys:
+        return False
+    return (t[0] == "min" and const <= -1) or (t[0] == "max" and const >= 1)
